@@ -38,7 +38,8 @@ RULE = ("Hypothesis-generated cases, seven clauses. kepler: (e, M) with e in [0,
         "(kepler); e > 0.9 (speed, length, node); always for length_switch; phase angle within "
         "1 deg of 0 or 180 or side ratio > 10 (phase); |tan(v/2)| > 3 (parabolic node). "
         "Distinct = distinct case dict."
-        " kepler_grid: the whole rectangle e in [0, 0.999999] x M in [-180, 180) deg on a 0.001 x 1 deg lattice (0.00025 x 0.25 deg in the thorough tier) with a seed-derived phase and whole turns (0, +-1, +2, -10) added; every lattice point is one evaluation and counts as non-trivial.")
+        " kepler_grid: the whole rectangle e in [0, 0.999999] x M in [-180, 180) deg on a 0.001 x 1 deg lattice (0.00025 x 0.25 deg in the thorough tier) with a seed-derived phase and whole turns (0, +-1, +2, -10) added; every lattice point is one evaluation and counts as non-trivial."
+        " node_planet: (planet, epoch -2000..4000, node, positional or keyword flag) for the six planet classes' passage_nodes wrappers; the elements and the perihelion time are taken from the same public functions and the returned time is fed to the reference Kepler solver.")
 ASSUMPTIONS = [
     "Kepler residual E - e sin E - M (degrees, reduced to [-180, 180]) must be <= 5e-8 as the "
     "property states; it is evaluated in double precision (error < 1e-12 deg)",
@@ -262,6 +263,46 @@ def body_node(case):
     return {"labels": labels, "nontrivial": e > 0.9, "show": {"dt_days": dt, "v": v}}
 
 
+NODE_PLANETS = ["Mercury", "Venus", "Mars", "Jupiter", "Saturn", "Uranus"]
+
+
+def body_node_planet(case):
+    """The planet classes' passage_nodes(epoch, ascending) hand the planet's mean elements and its
+    perihelion passage to the generic routine: the same relation must hold for what they return,
+    with the elements and the perihelion time taken from the same public functions."""
+    import importlib
+    name, jde, asc = case["planet"], case["jde"], case["asc"]
+    P = getattr(importlib.import_module("pymeeus." + name), name)
+    site = name + ".passage_nodes"
+    try:
+        tp = P.perihelion_aphelion(Epoch(jde))
+    except ValueError:
+        return {"labels": ["node_planet:perihelion_not_found(see C13)"], "refused": "perihelion_aphelion ValueError"}
+    l, a, e, i, ome, arg = P.orbital_elements_mean_equinox(Epoch(jde))
+    tt, r = P.passage_nodes(Epoch(jde), asc) if case.get("positional", True) else \
+        P.passage_nodes(Epoch(jde), ascending=asc)
+    if not isinstance(tt, Epoch) or not isinstance(r, float):
+        raise Violation("%s did not return (Epoch, float)" % site, site=site, kind="type")
+    omega = float(arg)
+    dt = tt.jde() - tp.jde()
+    n = K.MEAN_MOTION_DEG / (a * math.sqrt(a))
+    E = K.solve_kepler(e, math.radians(n * dt))
+    v = math.degrees(K.true_anomaly(e, E))
+    target = (-omega) if asc else (180.0 - omega)
+    off = _wrap180(v - target)
+    if not math.isfinite(dt) or abs(off) > 1e-6:
+        raise Violation("%s(Epoch(%r), %r): %.6f d after the perihelion passage the planet is at true anomaly "
+                        "%r; the %s node is at %r (off %.3e deg)"
+                        % (site, jde, asc, dt, v % 360.0, "ascending" if asc else "descending", target % 360.0, off),
+                        site=site, kind="node_anomaly", planet=name, asc=asc, off=off)
+    want_r = a * (1.0 - e * math.cos(E))
+    if abs(r - want_r) > 1e-6 * want_r:
+        raise Violation("%s(Epoch(%r), %r): radius vector %r, a(1 - e cos E) = %r" % (site, jde, asc, r, want_r),
+                        site=site, kind="node_radius", planet=name, asc=asc)
+    return {"labels": ["node_planet:" + name, "ascending" if asc else "descending"], "nontrivial": True,
+            "show": {"dt_days": dt, "v": v % 360.0, "r": r}}
+
+
 def body_node_parabolic(case):
     omega, q, jde, asc = case["omega"], case["q"], case["jde"], case["asc"]
     tt, r = C.passage_nodes_parabolic(Angle(omega), q, Epoch(jde), ascending=asc)
@@ -301,7 +342,7 @@ def body_kepler_grid(case):
 
 CLAUSES = {"kepler": body_kepler, "kepler_grid": body_kepler_grid, "speed": body_speed, "length": body_length,
            "length_switch": body_length_switch, "phase": body_phase, "node": body_node,
-           "node_parabolic": body_node_parabolic}
+           "node_parabolic": body_node_parabolic, "node_planet": body_node_planet}
 
 
 # --------------------------------------------------------------------- strategies
@@ -393,7 +434,13 @@ def parabolic_cases():
     return st.builds(build, vs, qs, jdes(), st.booleans())
 
 
-STRATS = {"kepler": kepler_cases, "speed": ea_cases, "length": ea_cases,
+def node_planet_cases():
+    return st.builds(lambda p, y, asc, pos: {"planet": p, "jde": round(S.jde_from_year(y), 3), "asc": asc,
+                                             "positional": pos},
+                     st.sampled_from(NODE_PLANETS), S.years(-2000.0, 4000.0), st.booleans(), st.booleans())
+
+
+STRATS = {"kepler": kepler_cases, "node_planet": node_planet_cases, "speed": ea_cases, "length": ea_cases,
           "length_switch": switch_cases, "phase": phase_cases, "node": node_cases,
           "node_parabolic": parabolic_cases}
 
@@ -401,7 +448,8 @@ STRATS = {"kepler": kepler_cases, "speed": ea_cases, "length": ea_cases,
 def tasks(tier, seed):
     mult = 1 if tier == "quick" else 40
     plan = {"kepler": (8, 9000), "speed": (2, 6000), "length": (2, 6000), "length_switch": (1, 2000),
-            "phase": (2, 6000), "node": (4, 5000), "node_parabolic": (1, 5000)}
+            "phase": (2, 6000), "node": (4, 5000), "node_parabolic": (1, 5000),
+            "node_planet": (2, 300)}
     out = []
     for clause, (shards, n) in plan.items():
         k = 1 if tier == "quick" else 2
